@@ -7,6 +7,8 @@ import (
 	"context"
 	"errors"
 	"fmt"
+	"github.com/spq/pkappa2/verifx/ref"
+	"net"
 	"os"
 	"path/filepath"
 	"sort"
@@ -99,6 +101,7 @@ type World struct {
 	// wantPick: while an event that names its pick is applied, every other eligible tag is passed over
 	wantPick string
 	epoch    int
+	adopted  sync.Map // managers whose points were adopted while this world was starting
 	// conversion jobs begun so far and the arguments of the last one
 	convBegins   int
 	lastConvArgs []any
@@ -191,20 +194,36 @@ func init() {
 			}
 			a := adopting.Load()
 			if a == nil {
-				return
+				// nobody is starting (any more): the manager's own world may have registered it since the lookup above
+				w2, ok2 := worlds.Load(owner)
+				if !ok2 {
+					return
+				}
+				w = w2
+				goto known
 			}
-			worlds.Store(owner, a)
-			w = a
+			// the world that is starting may not be the one this manager belongs to: between the failed
+			// lookup above and the read of the starting world, the manager's own world can have finished
+			// its start (and registered the manager) and the next world begun to start
+			actual, loaded := worlds.LoadOrStore(owner, a)
+			if !loaded {
+				a.adopted.Store(owner, name)
+			}
+			w = actual
 		}
+	known:
 		if fm := w.(*World).free.Load(); fm != nil {
 			if ch := fm.hold[name]; ch != nil {
 				<-ch
 			}
 			return
 		}
-		w.(*World).point(name, args)
+		w.(*World).point(name, append(args, ownerTag{owner}))
 	})
 }
+
+// ownerTag carries the manager a point came from through the argument list (diagnostics only).
+type ownerTag struct{ owner any }
 
 func init() {
 	verifhook.SetSkipHandler(func(owner any, name string, args ...any) bool {
@@ -234,6 +253,12 @@ func init() {
 }
 
 func (w *World) point(name string, args []any) {
+	var owner any
+	if n := len(args); n != 0 {
+		if ot, ok := args[n-1].(ownerTag); ok {
+			owner, args = ot.owner, args[:n-1]
+		}
+	}
 	kind, gate, _ := strings.Cut(name, ".")
 	w.mu.Lock()
 	if w.closed {
@@ -261,7 +286,7 @@ func (w *World) point(name string, args []any) {
 			}
 		}
 		if old := w.parked[kind]; old != nil && !old.completing {
-			w.Errors = append(w.Errors, fmt.Sprintf("second %s job began while %s is parked", kind, old.Name()))
+			w.Errors = append(w.Errors, fmt.Sprintf("second %s job began while %s is parked (point from manager %p, this world's manager %p, closed=%v)", kind, old.Name(), owner, w.Mgr, w.closed))
 		}
 		w.parked[kind] = j
 		w.cond.Broadcast()
@@ -334,7 +359,11 @@ func inputDigest(args []any) string {
 
 // NewWorld creates the data directories, the scenario captures (in a staging dir, not yet visible to
 // the service) and starts a manager under harness control.
-func NewWorld(converterBin string) (*World, error) {
+func NewWorld(converterBin string) (*World, error) { return NewWorldPrebuilt(converterBin, nil) }
+
+// NewWorldPrebuilt is NewWorld on a data directory that already holds index files with the given numbers
+// of streams (oldest first), as a service finds them at start-up after earlier runs.
+func NewWorldPrebuilt(converterBin string, prebuilt []int) (*World, error) {
 	base := ""
 	if st, err := os.Stat("/dev/shm"); err == nil && st.IsDir() && os.Getenv("TMPDIR") == "" {
 		base = "/dev/shm"
@@ -343,7 +372,42 @@ func NewWorld(converterBin string) (*World, error) {
 	if err != nil {
 		return nil, err
 	}
+	if len(prebuilt) != 0 {
+		if err := writePrebuilt(filepath.Join(dir, "index"), prebuilt); err != nil {
+			return nil, err
+		}
+	}
 	return NewWorldIn(dir, converterBin, true)
+}
+
+// writePrebuilt writes one index file per entry of counts, with that many single-datagram streams of
+// distinct flows and consecutive ids; file names sort in list order and before any name the service makes.
+func writePrebuilt(dir string, counts []int) error {
+	if err := os.MkdirAll(dir, 0o755); err != nil {
+		return err
+	}
+	ref.InternFiles("pre.pcap")
+	id := uint64(0)
+	for fi, n := range counts {
+		wr, err := index.NewWriter(filepath.Join(dir, fmt.Sprintf("2000-01-01_%06d.000.idx", fi)))
+		if err != nil {
+			return err
+		}
+		for k := 0; k < n; k++ {
+			sp := &ref.StreamSpec{Name: fmt.Sprintf("pre%d", id), ID: id, Client: net.IP{10, 9, byte(fi), byte(k + 1)}, Server: net.IP{10, 9, 0, 250}, CPort: uint16(30000 + id), SPort: 7, UDP: true,
+				Start: Base.Add(-time.Hour + time.Duration(id)*time.Second), Pkts: []ref.PktSpec{{Dir: ref.DirC2S, OffsetUs: 0, File: "pre.pcap", Index: id, Data: []byte(fmt.Sprintf("pre%d", id))}}}
+			if ok, err := wr.AddStream(sp.ToStream(), id); err != nil || !ok {
+				return fmt.Errorf("prebuilt index: AddStream: %v %v", ok, err)
+			}
+			id++
+		}
+		r, err := wr.Finalize()
+		if err != nil {
+			return err
+		}
+		r.Close()
+	}
+	return nil
 }
 
 // NewWorldIn starts a service on the given directory.  With populate the sub-directories, the
@@ -401,6 +465,12 @@ func (w *World) start() error {
 	}
 	mgr, err := manager.New(w.PcapDir, w.IndexDir, w.SnapDir, w.StateDir, w.ConvDir, watch)
 	if err == nil {
+		w.adopted.Range(func(k, v any) bool {
+			if k != any(mgr) {
+				w.Errors = append(w.Errors, fmt.Sprintf("while this world was starting a point %v of another manager %p was adopted (own manager %p)", v, k, mgr))
+			}
+			return true
+		})
 		worlds.Store(mgr, w)
 		// the start-up closure of New has been received by the service loop but may still be
 		// running: a Status round trip makes sure every job it starts has been adopted
@@ -441,7 +511,17 @@ func (w *World) Settle() error {
 			continue
 		}
 		if time.Now().After(deadline) {
-			return fmt.Errorf("service did not settle: status %+v, parked %v", st, w.ParkedNames())
+			var mine, elsewhere []string
+			worlds.Range(func(k, v any) bool {
+				if v == any(w) {
+					mine = append(mine, fmt.Sprintf("%p", k))
+				}
+				if k == any(w.Mgr) && v != any(w) {
+					elsewhere = append(elsewhere, fmt.Sprintf("own manager is registered for another world %s", v.(*World).Dir))
+				}
+				return true
+			})
+			return fmt.Errorf("service did not settle: status %+v, parked %v; own manager %p, managers registered for this world %v %v", st, w.ParkedNames(), w.Mgr, mine, elsewhere)
 		}
 		time.Sleep(200 * time.Microsecond)
 	}
